@@ -118,6 +118,12 @@ def _through(entry, name, fields):
 
             ns, _, nme = name.rpartition("/")
             d = schema_to_descriptor({"type": "record", "namespace": ns.replace("/", "."), "name": nme, "fields": [{"name": f, "type": ["string", "null"]} for _, f in fields]})
+        elif entry in ("merge_api", "extend_api"):
+            from flow.record.base import extend_record, merge_record_descriptors
+
+            base.merge_record_descriptors.cache_clear() if hasattr(base.merge_record_descriptors, "cache_clear") else None
+            P = RecordDescriptor("c06/p", [tuple(x) for x in fields])
+            d = merge_record_descriptors((P,), name=name) if entry == "merge_api" else extend_record(P(), [], name=name)._desc
         elif entry == "api_clone":
             import warnings
 
